@@ -46,6 +46,9 @@ fn maps() -> Vec<Beatmap> {
         // #10: a very long map — 1100 circles 400 ms apart: more than 1024 non-empty strain sections (size thresholds on the
         // strain lists themselves)
         MapSpec { repeat: 1100, ..MapSpec::new(0, vec![o(Kind::Circle, 400, PosK::Far, 0, 0)]) }.decode(),
+        // #11: a file whose own mode is mania but that lists slider-type objects (the decoder keeps them as sliders; mania
+        // derives their length on the fly)
+        MapSpec::new(3, vec![o(Kind::Circle, 0, PosK::Same, 0, 0), o(Kind::SliderLong, 150, PosK::Same, 0, 1), o(Kind::Slider2, 100, PosK::Same, 0, 2), o(Kind::Circle, 100, PosK::Same, 0, 3), o(Kind::SliderLong, 200, PosK::Same, 0, 0), o(Kind::Slider5, 90, PosK::Same, 0, 2)]).decode(),
     ]
 }
 
@@ -156,7 +159,7 @@ impl World {
 fn jobs(len: usize) -> Vec<Vec<Step>> {
     let mut v: Vec<Vec<Step>> = Vec::new();
     // taiko with two different Random seeds, mania convert with Random and key mods, osu, plus gradual walks
-    let bases: Vec<(u8, u8, u8)> = vec![(0, 0, 0), (1, 1, 2), (1, 1, 3), (0, 3, 2), (0, 3, 4), (2, 3, 3), (0, 1, 1), (0, 2, 1), (5, 2, 5), (6, 2, 1), (7, 3, 0), (8, 3, 0), (9, 3, 4), (9, 3, 6)];
+    let bases: Vec<(u8, u8, u8)> = vec![(0, 0, 0), (1, 1, 2), (1, 1, 3), (0, 3, 2), (0, 3, 4), (2, 3, 3), (0, 1, 1), (0, 2, 1), (5, 2, 5), (6, 2, 1), (7, 3, 0), (8, 3, 0), (9, 3, 4), (9, 3, 6), (11, 3, 0)];
     for &(map, dst, s) in &bases {
         let mut a = vec![Step::Difficulty { map, dst, s }, Step::Performance { map, dst, s }, Step::Strains { map, dst, s }];
         a.truncate(len);
@@ -203,6 +206,8 @@ fn guard_jobs() -> Vec<Vec<Step>> {
         vec![Step::Convert { map: 9, dst: 3, s: 6 }, Step::Difficulty { map: 9, dst: 3, s: 6 }],
         vec![Step::Difficulty { map: 10, dst: 0, s: 0 }, Step::Strains { map: 10, dst: 0, s: 0 }],
         vec![Step::Difficulty { map: 10, dst: 1, s: 0 }, Step::Difficulty { map: 10, dst: 0, s: 1 }],
+        twice(Step::Difficulty { map: 11, dst: 3, s: 0 }),
+        vec![Step::Strains { map: 11, dst: 3, s: 0 }, Step::Performance { map: 11, dst: 3, s: 0 }],
         vec![Step::ClonedPerformance { base: 0, s: 0 }, Step::ClonedPerformance { base: 1, s: 2 }],
         vec![Step::ClonedPerformance { base: 0, s: 1 }, Step::ClonedPerformance { base: 1, s: 4 }],
     ]
@@ -322,7 +327,7 @@ fn main() {
         std::env::set_var("VERIF_NO_EVIDENCE", "1");
     }
     let ctx = Ctx::from_env("C20");
-    ctx.rule("(A) interference: every assignment of jobs (difficulty / performance / strains calls, gradual difficulty and gradual performance walks split into their steps; clones of one prepared calculator given different Difficulty values; taiko and mania conversions with two different Random seeds and key mods; shared &Beatmap) from a pool to T threads and every interleaving of the threads' calls (T=2 x 3 calls: 20 schedules per assignment; T=3 x 2 calls: 90; thorough T=3 x 3: 1680) executed on real OS threads under the baton scheduler; oracle = every call returns the value it returns when its thread runs alone, shared maps unchanged. (B) hand-over: every gradual calculator that is Send in this build (all of them in the `sync` build, which the default build runs as a child) is moved between T <= 3 threads at the step boundaries: all T^n ownership sequences, n <= 4 (quick) / 5, incl. create on one thread and drop on another; oracle = the single-thread sequence. (D) shared-access preemption: 22 jobs of two calls, all 253 unordered pairs on two real threads with the pages of the library's writable statics and of the shared Beatmap structs protected; scheduling points = thread start, call boundaries, every write to a guarded region, every read of a location some job writes; every choice vector with <= 2 preemptions, each execution in a fresh process; oracle = every call returns what it returns when its job runs alone in a fresh process, also when repeated sequentially after the concurrent run. (C) free-running: the (A) job bodies on 16 unsynchronised threads for a fixed number of rounds against the sequential table — sampling, reported separately under coverage.free_running and not part of the exhaustive claim; non-trivial = schedules with more than one thread / ownership sequences that change thread");
+    ctx.rule("(A) interference: every assignment of jobs (difficulty / performance / strains calls, gradual difficulty and gradual performance walks split into their steps; clones of one prepared calculator given different Difficulty values; taiko and mania conversions with two different Random seeds and key mods; shared &Beatmap) from a pool to T threads and every interleaving of the threads' calls (T=2 x 3 calls: 20 schedules per assignment; T=3 x 2 calls: 90; thorough T=3 x 3: 1680) executed on real OS threads under the baton scheduler; oracle = every call returns the value it returns when its thread runs alone, shared maps unchanged. (B) hand-over: every gradual calculator that is Send in this build (all of them in the `sync` build, which the default build runs as a child) is moved between T <= 3 threads at the step boundaries: all T^n ownership sequences, n <= 4 (quick) / 5, incl. create on one thread and drop on another; oracle = the single-thread sequence. (D) shared-access preemption: 24 jobs of two calls, all 300 unordered pairs on two real threads with the pages of the library's writable statics and of the shared Beatmap structs protected; scheduling points = thread start, call boundaries, every write to a guarded region, every read of a location some job writes; every choice vector with <= 2 preemptions, each execution in a fresh process; oracle = every call returns what it returns when its job runs alone in a fresh process, also when repeated sequentially after the concurrent run. (C) free-running: the (A) job bodies on 16 unsynchronised threads for a fixed number of rounds against the sequential table — sampling, reported separately under coverage.free_running and not part of the exhaustive claim; non-trivial = schedules with more than one thread / ownership sequences that change thread");
     ctx.assume("(A)/(B) switch threads at public call boundaries only; that is complete iff two calculations share no mutable location, which (D) checks on this very build: every access to the library's writable statics (found in the binary's symbol table) and to the shared Beatmap structs is intercepted, and where a job writes such a location all schedules with <= 2 preemptions at those accesses are explored. Outside every exhaustive part: heap state reached only through a pointer stored in a static, weak-memory reorderings; (C) samples those");
 
     let world = World::new(Box::leak(maps().into_boxed_slice()));
@@ -495,6 +500,7 @@ fn main() {
         // profile: every job alone (reference digests; which guarded locations it writes)
         let mut refs: Vec<Vec<u64>> = Vec::new();
         let mut hot: Vec<(u16, u32)> = Vec::new();
+        let mut written_by: Vec<std::collections::BTreeSet<(u16, u32)>> = Vec::new();
         let mut region_names: Vec<String> = Vec::new();
         let (mut solo_reads, mut solo_writes) = (0u64, 0u64);
         let mut ok = true;
@@ -505,6 +511,7 @@ fn main() {
                         ctx.add_violation(vh::ctx::Violation { class: "guard_solo_differs".into(), universe: "D-shared-access/profile".into(), idx: j as u64, msg: format!("job {:?} alone: the calls return {:x?} and, repeated in the same process, {:x?}", gjobs[j], o.results[0], o.probe[0]) });
                     }
                     refs.push(o.results[0].clone());
+                    written_by.push(o.written.iter().copied().collect());
                     hot.extend(o.written.iter().copied());
                     solo_reads += o.reads;
                     solo_writes += o.writes;
@@ -523,6 +530,7 @@ fn main() {
             let pairs: Vec<(usize, usize)> = (0..gjobs.len()).flat_map(|a| (a..gjobs.len()).map(move |b| (a, b))).collect();
             let bound_max = 2usize;
             let max_runs: u64 = ctx.pick(150, 40_000);
+            let conflict_runs: u64 = std::env::var("VERIF_E4_CONFLICT_RUNS").ok().and_then(|v| v.parse().ok()).unwrap_or(4000);
             let (runs, hot_points, max_points, reads, writes) = (AtomicU64::new(0), AtomicU64::new(0), AtomicU64::new(0), AtomicU64::new(0), AtomicU64::new(0));
             let capped_pairs = AtomicU64::new(0);
             let bound1_complete = AtomicBool::new(true);
@@ -554,6 +562,10 @@ fn main() {
                     }
                     None
                 };
+                // two jobs that both write one guarded location are where an interleaving can matter at all: such a pair gets a
+                // larger budget in the quick tier too (on a tree whose jobs write no guarded location this costs nothing)
+                let conflicting = written_by[a].intersection(&written_by[b]).next().is_some();
+                let max_runs = if conflicting { max_runs.max(conflict_runs) } else { max_runs };
                 for bound in 1..=bound_max {
                     let mut stats = guard::ExploreStats::default();
                     let r = guard::explore(&|p| guard::run_child(&exe, &base, p, &hot).map(|x| x.0), &check, bound, max_runs, &mut stats);
